@@ -18,6 +18,7 @@ mod c07;
 mod c08;
 mod c09;
 mod c10;
+mod c11;
 mod c12;
 mod c13;
 mod c14;
@@ -31,7 +32,7 @@ use ctx::{Ctx, Mode, Tier};
 #[global_allocator]
 static GLOBAL: alloc::Counting = alloc::Counting;
 
-const PROPS: &[&str] = &["C01", "C02", "C03", "C04", "C05", "C06", "C07", "C08", "C09", "C10", "C12", "C13", "C14", "C15", "C16", "C17", "C19"];
+const PROPS: &[&str] = &["C01", "C02", "C03", "C04", "C05", "C06", "C07", "C08", "C09", "C10", "C11", "C12", "C13", "C14", "C15", "C16", "C17", "C19"];
 
 fn run_check(ctx: &mut Ctx) {
     match ctx.prop.as_str() {
@@ -45,6 +46,7 @@ fn run_check(ctx: &mut Ctx) {
         "C08" => c08::run(ctx),
         "C09" => c09::run(ctx),
         "C10" => c10::run(ctx),
+        "C11" => c11::run(ctx),
         "C12" => c12::run(ctx),
         "C13" => c13::run(ctx),
         "C14" => c14::run(ctx),
